@@ -127,9 +127,17 @@ def write_path(ctx):
             big, small = (cwv.args[0], cwv.args[1]) if cwv.op == ">" else (cwv.args[1], cwv.args[0])
             if key(big) == "w_buffer.level" and isinstance(small, (Obj, Sym)):
                 LV = key(small)
+        if LV is None and isinstance(cwv, Op) and cwv.op in (">=", "<=") and len(cwv.args) == 2 and any(key(a_) == "w_buffer.level" for a_ in cwv.args) \
+                and any(isinstance(a_, Obj) and a_.cls == "Signal" and v.drivers(a_) for a_ in cwv.args):
+            ob1.refute("%s:can_write" % tag, "%s is %s: a non-strict comparison of the buffer level with the reservation register lets a command through for a beat that is not "
+                       "buffered yet (level == reserved means every buffered beat already has its command)" % (key(CW), key(cwv)), pv[0].loc)
+            continue
         if LV is None:
-            ob1.refute("%s:can_write" % tag, "%s is %s, expected w_buffer.level > <reserved beats> (a command only for a beat that is already buffered and "
-                       "not yet reserved)" % (key(CW), key(cwv)), pv[0].loc)
+            if "w_buffer.level" not in support(cwv) and not any("w_buffer" in s_ for s_ in support(cwv)):
+                ob1.refute("%s:can_write" % tag, "%s is %s, which does not look at the write buffer at all: a command can be issued for a beat that is not buffered yet" %
+                           (key(CW), key(cwv)), pv[0].loc)
+            else:
+                ob1.unknown("%s: the buffered-data condition %s is not of the form w_buffer.level > <reservation register>: the reservation scheme is not decided" % (tag, key(cwv)))
             continue
         cs = counter_strobes(v, LV)
         if cs.get("inc") != QW or cs.get("dec") != DQW:
@@ -197,22 +205,37 @@ def read_path(ctx):
         val = deref(v, CR)
         ob.instance("%s reservation condition" % tag, key(val))
         LV = None
-        if isinstance(val, Op) and val.op in ("!=", "<") and len(val.args) == 2:
-            others = [a for a in val.args if key(a) != "buffer_depth"]
-            if len(others) == 1 and isinstance(others[0], (Obj, Sym)) and (val.op == "!=" or key(val.args[0]) != "buffer_depth"):
-                LV = key(others[0])
-        if LV is None:
-            ob.refute("%s:can_read" % tag, "%s is %s, expected exactly <reserved> != buffer_depth: any weaker condition lets a command through when "
-                      "the reservation (and the equally deep ID/last FIFO) is full, so an ID/last entry or a data word is lost" % (key(CR), key(val)), pv[0].loc)
-            continue
+        BOUND = None
         fifos = {str(o): o for o in v.d.objs if o.cls == "SyncFIFO"}
         rb, ib = fifos.get("r_buffer"), fifos.get("id_buffer")
-        if ob.need(rb is not None and ib is not None, "%s: r_buffer / id_buffer not found" % tag):
+        d1 = d2 = None
+        if rb is not None and ib is not None:
             d1 = rb.kwargs.get("depth", rb.args[1] if len(rb.args) > 1 else None)
             d2 = ib.kwargs.get("depth", ib.args[1] if len(ib.args) > 1 else None)
-            ob.instance("%s depths" % tag, {"r_buffer": key(d1), "id_buffer": key(d2)})
-            if key(d1) != "buffer_depth" or key(d2) != "buffer_depth":
-                ob.refute("%s:depths" % tag, "read data buffer depth %s / ID FIFO depth %s differ from the reservation bound buffer_depth" % (key(d1), key(d2)), rb.loc)
+        if isinstance(val, Op) and val.op in ("!=", "<") and len(val.args) == 2:
+            regs = [a for a in val.args if isinstance(a, Obj) and a.cls == "Signal" and v.drivers(a) and all(d_.domain.startswith("sync") for d_ in v.drivers(a))]
+            if len(regs) == 1 and (val.op == "!=" or val.args[0] is regs[0]):
+                LV = key(regs[0])
+                BOUND = [a for a in val.args if a is not regs[0]][0]
+        if LV is None:
+            # a disjunction that contains a proper bound test next to something else is positively weaker than the bound test
+            dj = disj(val) if isinstance(val, Op) and val.op in ("|", "or") else []
+            proper = [x for x, p_ in dj if p_ and isinstance(x, Op) and x.op in ("!=", "<") and any(key(a) == "buffer_depth" for a in x.args)]
+            if proper and len(dj) > 1:
+                ob.refute("%s:can_read" % tag, "%s is %s: next to the bound test it has another way to become true, so a command is let through when the reservation (and the "
+                          "equally deep ID/last FIFO) is full and an ID/last entry or a data word is lost" % (key(CR), key(val)), pv[0].loc)
+            else:
+                ob.unknown("%s: the reservation condition %s is not a comparison of a reservation register with a bound" % (tag, key(val)))
+            continue
+        if ob.need(rb is not None and ib is not None and d1 is not None and d2 is not None, "%s: r_buffer / id_buffer (or their depths) not found" % tag):
+            ob.instance("%s depths" % tag, {"reservation bound": key(BOUND), "r_buffer": key(d1), "id_buffer": key(d2)})
+            for nm_, d_ in (("read data buffer", d1), ("ID/last FIFO", d2)):
+                ge = lin_ge(d_, BOUND)
+                if ge is False:
+                    ob.refute("%s:depths" % tag, "up to %s reads are reserved but the %s holds only %s entries: a returned word / an ID entry is lost when the reader stalls" %
+                              (key(BOUND), nm_, key(d_)), rb.loc)
+                elif ge is None:
+                    ob.unknown("%s: cannot compare the reservation bound %s with the depth %s of the %s" % (tag, key(BOUND), key(d_), nm_))
         cs = counter_strobes(v, LV)
         if cs.get("inc") != QR or cs.get("dec") != DQR:
             ob.refute("%s:queue-dequeue" % tag, "the read reservation counter %s is incremented under %s and decremented under %s: expected fire(port.cmd)&~we / the buffer pop" %
@@ -221,9 +244,15 @@ def read_path(ctx):
         level_counter(v, ob, tag, LV, QR, DQR)
         ip = single(v, "id_buffer.sink.valid")
         io = single(v, "id_buffer.source.ready")
-        if ip is None or litset(conj(ip)) != {"ar.valid", "ar.ready"} or io is None or litset(conj(io)) != {"axi.r.valid", "axi.r.ready"}:
-            ob.refute("%s:id-fifo" % tag, "read ID/last FIFO is pushed on %s / popped on %s, expected fire(ar) / fire(axi.r)" %
+        pk_ = litset(conj(ip)) if ip is not None else set()
+        ok_ = litset(conj(io)) if io is not None else set()
+        if ip is None or io is None or not {"ar.valid", "ar.ready"} <= pk_ or not {"axi.r.valid", "axi.r.ready"} <= ok_:
+            ob.refute("%s:id-fifo" % tag, "read ID/last FIFO is pushed on %s / popped on %s: not on the handshakes fire(ar) / fire(axi.r)" %
                       (key(ip) if ip is not None else None, key(io) if io is not None else None), None)
+        elif pk_ != {"ar.valid", "ar.ready"} or ok_ != {"axi.r.valid", "axi.r.ready"}:
+            ob.unknown("%s: the ID FIFO is pushed on %s and popped on %s - one entry per burst instead of one per beat? that scheme (LAST regenerated from a length) is not decided" %
+                       (tag, sorted(pk_), sorted(ok_)))
+            continue
         for f, src in (("axi.r.last", "id_buffer.source.last"), ("axi.r.id", "id_buffer.source.id"), ("id_buffer.sink.last", "ar.last"), ("id_buffer.sink.id", "ar.id")):
             t = single(v, f)
             if t is None or key(t) != src:
